@@ -626,7 +626,20 @@ fn type_facts<'tcx>(tcx: TyCtxt<'tcx>) -> (J, J, J, J) {
             }
             DefKind::Const { .. } | DefKind::AssocConst { .. } | DefKind::Static { .. } => {
                 let t = tcx.type_of(did).instantiate_identity().skip_norm_wip();
-                consts.push(J::O(vec![("key", s(def_key(tcx, did))), ("kind", s(format!("{:?}", kind))), ("ty", s(t.to_string()))]));
+                let mut v = vec![("key", s(def_key(tcx, did))), ("kind", s(format!("{:?}", kind))), ("ty", s(t.to_string()))];
+                // value of plain (non-generic) integer / bool constants
+                let is_const = !matches!(kind, DefKind::Static { .. });
+                if is_const && (t.is_integral() || t.is_bool()) && !tcx.generics_of(did).requires_monomorphization(tcx) {
+                    if let Ok(val) = tcx.const_eval_poly(did) {
+                        if let Some(sc) = val.try_to_scalar_int() {
+                            let size = sc.size();
+                            let raw = sc.to_bits(size);
+                            let iv: i128 = if t.is_signed() { sc.to_int(size) } else { raw as i128 };
+                            v.push(("int", J::I(iv)));
+                        }
+                    }
+                }
+                consts.push(J::O(v));
             }
             _ => {}
         }
